@@ -210,6 +210,11 @@ Definition monad_of (id : list Z) : option (val -> res val) :=
   if is "*" then Some v_first else
   if is "Linc" || is "proj" || is "py" then Some (fun x => arith n_add x (VInt 1)) else
   if is "Ldup" then Some (fun x => join x x) else
+  if is "Ldrop" then Some (fun x => match x with
+                                    | VList l => Ok (VList (tl l))
+                                    | VStr s => Ok (VStr (tl s))
+                                    | _ => Err E_UNMODELLED end) else
+  if is "Linc2" then Some (fun x => arith n_add x (VInt 2)) else
   if is "Lid" then Some (fun x => Ok x) else
   if is "Lone" then Some (fun _ => Ok (VInt 1)) else
   if is "Ldbl" then Some (fun x => arith n_mul x (VInt 2)) else
@@ -231,6 +236,12 @@ Definition pred_of (id : list Z) : option (val -> res val) :=
   if is "lt0" then Some (cmp 0) else
   if is "lt30" then Some (cmp 30) else
   if is "never" then Some (fun _ => Ok (VInt 0)) else
+  (* tests that answer truth values other than 0 / 1 *)
+  if is "size" then Some v_size else
+  if is "m4" then Some (fun x => arith n_sub x (VInt 4)) else
+  if is "rem10" then Some (fun x => arith n_sub (VInt 10) x) else
+  if is "realrem" then Some (fun x => bindr (arith n_sub (VInt 4) x) (fun t => arith n_div t (VInt 1))) else
+  if is "self" then Some (fun x => Ok x) else
   if is "short" then Some (fun x => bindr (v_size x) (fun n => match n with VInt z => Ok (VInt (b2z (Z.ltb z 4))) | _ => Err E_UNMODELLED end)) else
   None.
 
@@ -277,7 +288,7 @@ Definition answer (r : res val * L) : sx :=
   | OutOfFuel => SL [sx_w "fuel"; lg]
   end.
 
-Definition run (adv vid : list Z) (chain : list sx) (lft : sx) (a : sx) (fuel : nat) : sx :=
+Definition run (adv vid : list Z) (chain : list sx) (lft : sx) (a : sx) (fuel : nat) (route : Z) : sx :=
   match sym_of adv, syms_of chain, val_of_sx 200 a with
   | Some s, Some cs, Some av =>
       let ctx := if dyadic_use adv then 2%nat else 1%nat in
@@ -307,7 +318,22 @@ Definition run (adv vid : list Z) (chain : list sx) (lft : sx) (a : sx) (fuel : 
                     | None => sx_err "left"
                     end
                 end
-              else answer (m_chain over_shortcuts scan_shortcuts fuel (op_of vid) vb (s :: cs) av [])
+              else
+                (* route 1: the operand is a variable / function argument, so a single Over / Scan-Over of an
+                   operator may be run by the expression compiler first *)
+                let compiled :=
+                  if Z.eqb route 1 then
+                    match cs with
+                    | [] => if String.eqb s "/" then compiled_over redscan_ops compiled_reduce_tbl (op_of vid) av
+                            else if String.eqb s "\" then compiled_scan redscan_ops compiled_scan_tbl (op_of vid) av
+                            else None
+                    | _ => None
+                    end
+                  else None in
+                match compiled with
+                | Some r => answer (r, [])
+                | None => answer (m_chain over_shortcuts scan_shortcuts fuel (op_of vid) vb (s :: cs) av [])
+                end
           end
       end
   | _, _, _ => sx_err "request"
@@ -315,8 +341,8 @@ Definition run (adv vid : list Z) (chain : list sx) (lft : sx) (a : sx) (fuel : 
 
 Definition dispatch (x : sx) : sx :=
   match x with
-  | SL [SS t; SS adv; SS verb; SL chain; lft; a; SZ fuel] =>
-      if is_tag "run" t then run adv verb chain lft a (Z.to_nat fuel) else sx_err "op"
+  | SL [SS t; SS adv; SS verb; SL chain; lft; a; SZ fuel; SZ route] =>
+      if is_tag "run" t then run adv verb chain lft a (Z.to_nat fuel) route else sx_err "op"
   | _ => sx_err "shape"
   end.
 
